@@ -12,9 +12,24 @@ open Store Api
 
 theorem fresh_index (s : MState) : (fresh s).2.index = s.index := rfl
 
+/-- `newKeyWith` publishes one record; the rest of the index is untouched (it may drop a backend
+    entry of a dead record it replaces: only `.disk` changes) -/
+theorem newKeyWith_index (s : MState) (key : Bytes) (old : Option Meta) (v : Val) :
+    ∃ m, (newKeyWith s key old v).index = AList.set s.index key m := by
+  unfold newKeyWith fresh
+  simp only [putMeta]
+  refine ⟨(({ (match old with | some m => m | none => { exp := 0, value := none }) with
+              exp := 0, kid := s.nextId, oid := s.nextId + 1 } : Meta).setValue v).markModified, ?_⟩
+  congr 1
+  split
+  · rw [unpersist_index]
+  · rfl
+
 theorem newKeyWith_sorted (s : MState) (key : Bytes) (old : Option Meta) (v : Val) (h : IndexSorted s) :
     IndexSorted (newKeyWith s key old v) := by
-  unfold newKeyWith fresh
+  obtain ⟨m, hm⟩ := newKeyWith_index s key old v
+  unfold IndexSorted
+  rw [hm]
   exact set_preserves_sorted _ h _ _
 
 theorem writeKey_sorted (s : MState) (now : Int) (key : Bytes) (mk : Option Val) (h : IndexSorted s) :
@@ -56,8 +71,8 @@ theorem signal_sorted (s : MState) (k : Bytes) (h : IndexSorted s) : IndexSorted
   | none => exact h
   | some m => exact putMeta_sorted s k _ h
 
-theorem delKey_sorted (s : MState) (k : Bytes) (h : IndexSorted s) : IndexSorted (delKey s k) :=
-  erase_preserves_sorted _ h _
+theorem delKey_sorted (s : MState) (k : Bytes) (h : IndexSorted s) : IndexSorted (delKey s k) := by
+  unfold IndexSorted; rw [delKey_index]; exact erase_preserves_sorted _ h _
 
 theorem close_write (s1 : MState) (key : Bytes) (v v' : Val) (now : Int) (op : FeedOp)
     (h : Hot s1 key v now) (hi : IndexSorted s1) :
@@ -691,15 +706,21 @@ theorem commit_index (s : MState) : (commit s).index = s.index := rfl
 theorem del_single (s : MState) (now : Int) (dst : Bytes) (hi : IndexSorted s)
     (hc : Absent s dst now ∨ ∃ v, Hot s dst v now) :
     Absent (del s now [dst]).1 dst now ∧ IndexSorted (del s now [dst]).1 := by
-  have hunf : (del s now [dst]).1 =
+  have hunf : (del s now [dst]).1.index =
       (if !(writeKey s now dst none).2 then (writeKey s now dst none).1
-       else delKey (writeKey s now dst none).1 dst) := by
+       else delKey (writeKey s now dst none).1 dst).index := by
     unfold del
     simp only [List.foldl]
     rw [pair_eta (writeKey s now dst none)]
     simp only
-    split <;> rfl
-  rw [hunf]
+    split
+    · rfl
+    · simp only [emit_index]
+  suffices hh : Absent (if !(writeKey s now dst none).2 then (writeKey s now dst none).1
+        else delKey (writeKey s now dst none).1 dst) dst now ∧
+      IndexSorted (if !(writeKey s now dst none).2 then (writeKey s now dst none).1
+        else delKey (writeKey s now dst none).1 dst) from
+    ⟨absent_congr hunf hh.1, sorted_congr hunf hh.2⟩
   rcases hc with ha | ⟨v, hh⟩
   · obtain ⟨w1, w2⟩ := writeKey_absent_none s now dst ha
     rw [w1]
@@ -783,5 +804,110 @@ theorem sstore_enumerated (op : MState → Int → List Bytes → Api.R) (s : MS
     apply Bool.eq_iff_iff.mpr
     rw [← hl.2 x]
     simp [Spec.BSet.insertAll, DsSet.mem, AList.contains, AList.get?]
+
+/-! ### SMOVE on one key, and SMOVE of a non-member -/
+
+theorem hot_setVal (s : MState) (k : Bytes) (v v' : Val) (now : Int) (h : Hot s k v now) :
+    Hot (setVal s k v') k v' now := by
+  obtain ⟨m, hm, hok, hexp, _⟩ := h
+  exact ⟨{ m with value := some v' }, getMeta_setVal_same s k v' m hm, hok, hexp, rfl⟩
+
+theorem hot_signal (s : MState) (k : Bytes) (v : Val) (now : Int) (h : Hot s k v now) :
+    Hot (signal s k) k v now := by
+  obtain ⟨m, hm, hok, hexp, hv⟩ := h
+  refine ⟨m.markModified, ?_, ?_, ?_, hv⟩
+  · rw [getMeta_signal_same, hm]; rfl
+  · rw [markModified_isOk]; exact hok
+  · rw [markModified_expired]; exact hexp
+
+theorem srem_singleton_member (st : AList Unit) (member : Bytes) (hm : DsSet.mem st member = true) :
+    DsSet.srem st [member] = (AList.erase st member, 1) := by
+  simp [DsSet.srem, hm]
+
+theorem srem_singleton_nonmember (st : AList Unit) (member : Bytes) (hm : DsSet.mem st member = false) :
+    DsSet.srem st [member] = (st, 0) := by
+  simp [DsSet.srem, hm]
+
+/-- SMOVE of something that is not a member of the source: reply false, source unchanged (whatever
+    the destination is) -/
+theorem smove_not_member (s : MState) (now : Int) (src dst member : Bytes) (st : AList Unit)
+    (h : Hot s src (.set st) now) (hm : DsSet.mem st member = false) :
+    (smove s now src dst member).2 = .bool false ∧ Hot (smove s now src dst member).1 src (.set st) now := by
+  have hw := hot_after_writeKey s now src none _ h
+  unfold smove
+  rw [writeKey_hot_pair s now src none _ h]
+  simp only [Bool.not_true, Bool.false_eq_true, if_false]
+  rw [asSet_hot hw.2]
+  simp only
+  rw [srem_singleton_nonmember st member hm]
+  simp only [if_true]
+  exact ⟨trivial, hot_setVal _ _ _ _ _ hw.2⟩
+
+theorem smove_missing_src (s : MState) (now : Int) (src dst member : Bytes) (h : Absent s src now) :
+    (smove s now src dst member).2 = .bool false := by
+  have hp : writeKey s now src none = ((writeKey s now src none).1, false) :=
+    Prod.ext rfl (writeKey_absent_none s now src h).1
+  unfold smove
+  rw [hp]
+  rfl
+
+/-- removing a member and adding it back gives the same set -/
+theorem sadd_erase_same (st : AList Unit) (hs : AList.Sorted st) (member : Bytes) (hm : DsSet.mem st member = true) :
+    (DsSet.sadd (AList.erase st member) [member]).1 = st := by
+  have hs' := erase_preserves_sorted st hs member
+  obtain ⟨q1, q2, _, _⟩ := sadd_spec (AList.erase st member) hs' [member]
+  apply set_ext _ _ q1 hs
+  intro x
+  rw [q2]
+  simp only [Spec.BSet.insertAll, mem_eq_contains, contains_erase st hs, List.mem_singleton]
+  by_cases hx : x = member
+  · subst hx; simpa [mem_eq_contains] using hm
+  · simp [hx]
+
+/-- SMOVE with source = destination (no longer a self-deadlock): the member is taken out and put
+    back; reply true, the set is what it was -/
+theorem smove_same_key (s : MState) (now : Int) (key member : Bytes) (st : AList Unit)
+    (h : Hot s key (.set st) now) (hi : IndexSorted s) (hst : AList.Sorted st)
+    (hm : DsSet.mem st member = true) :
+    (smove s now key key member).2 = .bool true ∧ Hot (smove s now key key member).1 key (.set st) now ∧
+    IndexSorted (smove s now key key member).1 := by
+  have hw := hot_after_writeKey s now key none _ h
+  have hsw := sorted_after_writeKey_hot s now key none _ h hi
+  have hs' := erase_preserves_sorted st hst member
+  unfold smove
+  rw [writeKey_hot_pair s now key none _ h]
+  simp only [Bool.not_true, Bool.false_eq_true, if_false]
+  rw [asSet_hot hw.2]
+  simp only
+  rw [srem_singleton_member st member hm]
+  simp only [Int.reduceEq, if_false]
+  -- the state before the second writeKey represents the reduced set
+  have hrel : SetRel (signal (if DsSet.scard (AList.erase st member) = 0
+        then delKey (setVal (writeKey s now key none).1 key (.set (AList.erase st member))) key
+        else setVal (writeKey s now key none).1 key (.set (AList.erase st member))) key) key now
+        (AList.erase st member) ∧
+      IndexSorted (signal (if DsSet.scard (AList.erase st member) = 0
+        then delKey (setVal (writeKey s now key none).1 key (.set (AList.erase st member))) key
+        else setVal (writeKey s now key none).1 key (.set (AList.erase st member))) key) := by
+    have hsv := setVal_sorted (writeKey s now key none).1 key (.set (AList.erase st member)) hsw
+    by_cases hc : DsSet.scard (AList.erase st member) = 0
+    · rw [if_pos hc]
+      refine ⟨⟨hs', Or.inl ⟨eq_nil_of_length_zero _ hc, ?_⟩⟩, signal_sorted _ _ (delKey_sorted _ _ hsv)⟩
+      intro m hm'
+      rw [getMeta_signal_same, getMeta_delKey_same _ _ hsv] at hm'
+      cases hm'
+    · rw [if_neg hc]
+      exact ⟨⟨hs', Or.inr ⟨ne_nil_of_length _ hc, hot_signal _ _ _ _ (hot_setVal _ _ _ _ _ hw.2)⟩⟩,
+        signal_sorted _ _ hsv⟩
+  obtain ⟨hot5, hi5⟩ := open_set _ now key (AList.erase st member) hrel.1 hrel.2
+  rw [pair_eta (writeKey _ now key (some (.set [])))]
+  simp only
+  rw [asSet_hot hot5]
+  simp only
+  obtain ⟨c1, c2⟩ := close_write _ key _ (.set (DsSet.sadd (AList.erase st member) [member]).1) now
+    { typ := 23, key := key, args := [Bytes.toHex member] } hot5 hi5
+  rw [sadd_erase_same st hst member hm] at c1 c2
+  rw [sadd_erase_same st hst member hm]
+  exact ⟨by first | rfl | trivial, c1, c2⟩
 
 end NodisVerif.Proofs.C03Seq
